@@ -37,7 +37,7 @@ func c08Sponge(c *Ctx) {
 					if l < 0 || bad != "" {
 						continue
 					}
-					w := &pathWalker{env: newEnv(), lengths: true, maxSteps: 8000}
+					w := &pathWalker{env: newEnv(), lengths: true, maxSteps: 8000, opaque: map[string]bool{"permute": true, "padAndPermute": true}}
 					w.env.bind(p, l)
 					st := int64(0)
 					if dir == "Read" {
